@@ -35,6 +35,7 @@ func RunPath(p *Program, s *smt.Solver, entry *ssa.Function, prefix []Decision, 
 		}
 		m.inInit = false
 		m.settle()
+		m.baseG = len(m.gs)
 		m.call(entry, nil, nil, 0)
 	})
 	g0.resume <- true
